@@ -74,6 +74,9 @@ type event struct {
 	Path    string            `json:"path,omitempty"`
 	Headers map[string]string `json:"headers,omitempty"`
 	Body    []byte            `json:"body,omitempty"`
+	// http doors and raw http: the body length is not announced (chunked transfer encoding /
+	// HTTP/2 without content-length: the handler sees ContentLength == -1)
+	Chunked bool `json:"chunked,omitempty"`
 }
 
 type scenario struct {
@@ -222,7 +225,7 @@ func pollBody(e *event) []byte {
 	return b
 }
 
-func serve(mux http.Handler, method, target string, hdr map[string]string, body []byte, remote string) (rec *httptest.ResponseRecorder, pan string) {
+func serve(mux http.Handler, method, target string, hdr map[string]string, body []byte, remote string, chunked ...bool) (rec *httptest.ResponseRecorder, pan string) {
 	rec = httptest.NewRecorder()
 	var req *http.Request
 	func() {
@@ -231,7 +234,12 @@ func serve(mux http.Handler, method, target string, hdr map[string]string, body 
 				req = nil // the generated request line is not valid HTTP: not a request a server ever sees
 			}
 		}()
-		req = httptest.NewRequest(method, target, bytes.NewReader(body))
+		if len(chunked) > 0 && chunked[0] {
+			// a reader type net/http knows no length for: ContentLength = -1, as for a chunked body
+			req = httptest.NewRequest(method, target, struct{ io.Reader }{bytes.NewReader(body)})
+		} else {
+			req = httptest.NewRequest(method, target, bytes.NewReader(body))
+		}
 	}()
 	if req == nil {
 		rec.Code = 400
@@ -273,7 +281,7 @@ func doPoll(ctx *BrokerContext, mux http.Handler, e *event, r *result, now func(
 		remote = "203.0.113.9:1234"
 	}
 	if e.Door == "http" {
-		rec, pan := serve(mux, "POST", "/proxy", nil, body, remote)
+		rec, pan := serve(mux, "POST", "/proxy", nil, body, remote, e.Chunked)
 		r.Panic, r.Status, r.Raw = pan, rec.Code, rec.Body.Bytes()
 	} else {
 		var resp []byte
@@ -346,7 +354,7 @@ func doClient(ctx *BrokerContext, mux http.Handler, e *event, r *result, now fun
 	var respJSON []byte
 	switch e.Door {
 	case "post":
-		rec, pan := serve(mux, "POST", "/client", nil, clientBody(e), "")
+		rec, pan := serve(mux, "POST", "/client", nil, clientBody(e), "", e.Chunked)
 		r.Panic, r.Status, r.Raw = pan, rec.Code, rec.Body.Bytes()
 		if rec.Code == 200 {
 			respJSON = r.Raw
@@ -356,7 +364,7 @@ func doClient(ctx *BrokerContext, mux http.Handler, e *event, r *result, now fun
 		if e.NAT != nil {
 			hdr["Snowflake-NAT-Type"] = *e.NAT
 		}
-		rec, pan := serve(mux, "POST", "/client", hdr, []byte(e.Offer), "")
+		rec, pan := serve(mux, "POST", "/client", hdr, []byte(e.Offer), "", e.Chunked)
 		r.Panic, r.Status, r.Raw = pan, rec.Code, rec.Body.Bytes()
 		r.End = now()
 		switch {
@@ -574,7 +582,7 @@ func runScenario(t *testing.T, ctx *BrokerContext, sc *scenario, extra func(ctx 
 					case "answer":
 						doAnswer(ctx, mux, e.Door, e.Sid, e.Answer, &r, now)
 					case "http":
-						rec, pan := serve(mux, e.Method, e.Path, e.Headers, e.Body, e.Remote)
+						rec, pan := serve(mux, e.Method, e.Path, e.Headers, e.Body, e.Remote, e.Chunked)
 						r.Panic, r.Status, r.Raw = pan, rec.Code, rec.Body.Bytes()
 						r.End = now()
 						r.Done = true
